@@ -77,6 +77,18 @@ def generate(rng, tier):
                "payload": "dask" if rng.random() < 0.15 else "numpy", "new_unit": rng.random() < 0.2,
                "wseed": rng.randrange(10**6)}
 
+    # chains: lazy payloads (with a numpy or a lazy mask) and numpy payloads, binned by the smallest divisor so
+    # that the result can be rebinned again (the second step is checked in run)
+    for k in range(60 if tier == "quick" else 3000):
+        shape = rng.choice([[8], [4, 6], [4, 4], [2, 4, 6], [12], [6, 4]])
+        size = int(np.prod(shape))
+        bins = [min(q for q in divisors(n) if q > 1) if n > 2 else 1 for n in shape]
+        yield {"shape": shape, "bins": bins, "form": "int", "op": rng.choice(["sum", "mean", "sum", "nansum"]),
+               "mask": rng.choice(["random", "random", "allfalse", "none"]), "bits": [rng.random() < 0.15 for _ in range(size)],
+               "data": [rng.randint(0, 4) for _ in range(size)], "nans": [], "ignores": rng.random() < 0.25,
+               "handle": rng.choice(["all", "all", "any"]), "payload": "dask" if k % 3 else "numpy", "new_unit": False,
+               "wseed": rng.randrange(10**6) * 6 + rng.choice([1, 2, 4, 5])}
+
 
 def build(case):
     from ndcube import NDCube
@@ -214,6 +226,39 @@ def run(case):
             fails.append("meta not carried over")
         res["obs"] = {"shape": list(got.shape), "values": [None if np.isnan(v) else v for v in got.ravel().tolist()],
                       "isnan": [bool(np.isnan(v)) for v in got.ravel().tolist()], "mask": mobs}
+        # the result is a cube like any other: rebinning IT (same options) must again give the operation over the
+        # blocks of its values, honouring its mask - the second step meets whatever the first left behind (lazy
+        # graphs, masked-array views).  Only where every first-step value is defined.
+        if not fails and case["wseed"] % 3 != 0 and all(v is not None for v in values) and np.all(np.isfinite(got)):
+            ib2 = [max([q for q in divisors(n) if q < n] or [1]) if n > 1 else 1 for n in new_shape]
+            if any(b > 1 for b in ib2):
+                m2 = None
+                if case["handle"] != "none" and isinstance(mjson, list):
+                    m2 = np.asarray(C.materialize(out.mask)).astype(bool)
+                use2 = m2 is not None and not case["ignores"]
+                try:
+                    out2 = out.rebin(tuple(ib2), **{k: v for k, v in kwargs.items() if k != "new_unit"})
+                    got2 = np.asarray(np.ma.getdata(C.materialize(out2.data)), dtype=float)
+                    shape2 = tuple(n // b for n, b in zip(new_shape, ib2))
+                    if got2.shape != shape2:
+                        fails.append(f"second rebin by {ib2}: shape {got2.shape} != {shape2}")
+                    else:
+                        for j in np.ndindex(*shape2):
+                            sl = tuple(slice(jj * b, (jj + 1) * b) for jj, b in zip(j, ib2))
+                            blk = got[sl].ravel()
+                            if use2:
+                                blk = blk[~m2[sl].ravel()]
+                            if blk.size == 0:
+                                continue
+                            with np.errstate(all="ignore"):
+                                exp2 = float(op(blk))
+                            if not np.isclose(got2[j], exp2, rtol=1e-12, atol=0, equal_nan=True):
+                                fails.append(f"second rebin by {ib2} of the result: element {list(j)} = {got2[j]}, "
+                                             f"{case['op']} over its block of the first result = {exp2}")
+                                break
+                    tags.append("second-rebin")
+                except Exception as e:
+                    fails.append(f"second rebin by {ib2} of the result raised {type(e).__name__}: {str(e)[:120]}")
         if fails:
             res["oracle"] = "; ".join(fails[:2])
     except Exception as e:
